@@ -20,7 +20,7 @@ SPLINE_MAX = 3000
 
 
 TREND_FAMILIES = ["poly", "sin", "const", "npscalar", "poly_sum", "poly_dot", "daily_inplace", "math_sin", "step",
-                  "late_ramp", "clipped"]
+                  "late_ramp", "clipped", "ufunc"]
 
 
 def trend_fun(desc):
@@ -50,6 +50,9 @@ def trend_fun(desc):
         return lambda t: c[0] * math.sin(c[1] * t + c[2])
     if kind == "step":
         return lambda t: c[0] if t < c[1] else c[2]
+    if kind == "ufunc":             # a bare NumPy ufunc object handed over as the trend
+        return {"sin": np.sin, "cos": np.cos, "tanh": np.tanh, "log1p_abs": np.fabs, "arctan": np.arctan,
+                "expm1_neg": np.negative}[c[0]]
     if kind == "late_ramp":         # "growth starts later": the int literal 0 first, fractions afterwards
         return lambda t: 0 if t < c[1] else c[0] * (t - c[1])
     if kind == "clipped":           # max(0, ...) returns the int 0 or a float
@@ -75,6 +78,8 @@ def gen_trend(rng, x, y, normalized, families=None):
         c = [mag * c[0], (c[1] * 6.0) if normalized else c[1] * 6.0 / span, c[2]]
     elif fam == "const":
         c = [mag * c[0]]
+    elif fam == "ufunc":
+        c = [["sin", "cos", "tanh", "log1p_abs", "arctan", "expm1_neg"][int(rng.integers(0, 6))]]
     elif fam == "daily_inplace":
         c = [mag * c[0], (1.0 if normalized else span) / float(rng.choice([1.0, 2.5, 7.0])), c[2]]
     elif fam == "step":
@@ -248,6 +253,10 @@ def _container(kind, a):
     return a
 
 
+class ChainBroken(AssertionError):
+    pass
+
+
 def materialise(op):
     """Build the actual call (fresh argument objects, so that two objects never share a caller array)."""
     name = op["op"]
@@ -274,7 +283,10 @@ def apply(wv, op, salt=0):
     if "np_seed" in op:
         np.random.seed(op["np_seed"])
     form_rng = np.random.default_rng([op["form"], salt]) if "form" in op else None
-    callform.call(form_rng, getattr(wv, name), "Weaver." + name, args, kw)
+    ret = callform.call(form_rng, getattr(wv, name), "Weaver." + name, args, kw)
+    if ret is not wv:
+        # every processing method is documented "Returns: self" - that is what makes wv.a().b() act on wv
+        raise ChainBroken("Weaver.%s returned %s instead of the object it was called on" % (name, type(ret).__name__))
     return owned
 
 
